@@ -47,6 +47,24 @@ Theorem C15_cp_reads_as_source : forall w sf sp df dp w',
 Proof. exact cp_spec. Qed.
 Print Assumptions C15_cp_reads_as_source.
 
+(** a refused cp or ln -s (no overwrite flag, existing destination file, not the root-destination case)
+    leaves both files exactly as they were *)
+Theorem C15_error_leaves_files_unchanged : forall w sf sp df dp soft e w',
+  file_exists w df = true -> (sf = df \/ dp <> [] \/ soft = true) ->
+  _copy w sf sp df dp false false false soft = (e, w') -> e <> Ok -> w' = w.
+Proof. exact copy_error_unchanged. Qed.
+Print Assumptions C15_error_leaves_files_unchanged.
+
+(** mv within a file: after a successful move the source name is unbound in its parent group
+    (partial: the guarded "destination reads as the source" half is not proved in general - it is
+    FALSE for destinations inside the moved group, C15_mv_spec_refuted below) *)
+Theorem C15_mv_source_unbound_partial : forall w f sp dp w',
+  mv w f sp f dp false = (Ok, w') ->
+  exists w2 par n fp gp, sp = par ++ [n] /\ del_link w2 f sp = (Ok, w') /\ world_le w w2 /\
+    resolve w2 f par = Found fp gp /\ lookup_link w' fp gp n = None.
+Proof. exact mv_source_unbound. Qed.
+Print Assumptions C15_mv_source_unbound_partial.
+
 (** recognition is total: never an error ... *)
 Theorem C15_is_cooler_never_raises : forall w f p e, is_cooler w f p <> TRaise e.
 Proof. exact is_cooler_never_raises. Qed.
@@ -114,6 +132,12 @@ Theorem C15_listing_exact_refuted_cycle :
   list_coolers w_cycle FA = (ERecursion, []) /\ is_cooler w_cycle FA ["a"; "b"]%string = TTrue.
 Proof. exact listing_cycle_refuted. Qed.
 Print Assumptions C15_listing_exact_refuted_cycle.
+
+(** ... and no budget would do: the traversal of that file fails for EVERY fuel (the real RecursionError
+    does not depend on the interpreter's recursion limit) *)
+Theorem C15_listing_cycle_no_fuel_suffices : forall k name, fst (visit k w_cycle FA 0 name) <> Ok.
+Proof. exact listing_cycle_no_fuel. Qed.
+Print Assumptions C15_listing_cycle_no_fuel_suffices.
 
 (** ... on an external link (D14b): /e is a collection of file B but the listing reports /x *)
 Theorem C15_listing_exact_refuted_external :
